@@ -393,6 +393,16 @@ def do_step_x(ctx, w, rng, mode, op, i, rec):
         if st == "ok":
             w.extra[-1] = to_pyval(ret[0])
             ctx.count(f"eq:{kind}:{w.meta[j]['kind']}:{ret[0]}")
+            # `!=` is the negation of `==` for every pair of handles (`__ne__` of AtomGro / Residue / Molecule)
+            try:
+                with hg.warnings.catch_warnings():
+                    hg.warnings.simplefilter("ignore")
+                    ne = bool(o != p)
+                ctx.oracle_ok(1)
+                if ne == bool(ret[0]):
+                    ctx.oracle_fail("c18:eq:ne-is-not-the-negation-of-eq", w.case, {"op": w.desc[-1]})
+            except Exception:   # noqa: BLE001
+                ctx.count("ne:raised")
     elif op == "mkatom":
         if kind == "atom" and rng.random() < 0.85:
             j = partner(lambda j: w.meta[j]["kind"] == "agro", 0.25)
